@@ -1,6 +1,6 @@
 PROPERTY = {'id': 'C11',
- 'contract_modules': ['doctest_example', 'util_stream', 'checker', 'doctest_part', 'runner'],
- 'functions': ['xdoctest.doctest_example:DocTest.run', 'xdoctest.utils.util_stream:CaptureStdout.__init__', 'xdoctest.utils.util_stream:CaptureStdout.start', 'xdoctest.utils.util_stream:CaptureStdout.stop', 'xdoctest.utils.util_stream:CaptureStdout.__enter__', 'xdoctest.utils.util_stream:CaptureStdout.__exit__', 'xdoctest.utils.util_stream:CaptureStdout.log_part', 'xdoctest.utils.util_stream:TeeStringIO.__init__',
+ 'contract_modules': ['directive', 'doctest_example', 'util_stream', 'checker', 'doctest_part', 'runner'],
+ 'functions': ['xdoctest.directive:RuntimeState.__init__#concrete', 'xdoctest.directive:RuntimeState.update#concrete', 'xdoctest.directive:RuntimeState.set_report_style#concrete', 'xdoctest.directive:Directive.effects', 'xdoctest.directive:_is_requires_satisfied', 'xdoctest.doctest_example:DocTest.run', 'xdoctest.utils.util_stream:CaptureStdout.__init__', 'xdoctest.utils.util_stream:CaptureStdout.start', 'xdoctest.utils.util_stream:CaptureStdout.stop', 'xdoctest.utils.util_stream:CaptureStdout.__enter__', 'xdoctest.utils.util_stream:CaptureStdout.__exit__', 'xdoctest.utils.util_stream:CaptureStdout.log_part', 'xdoctest.utils.util_stream:TeeStringIO.__init__',
                'xdoctest.doctest_example:DocTest._post_run',
                'xdoctest.doctest_example:DocTest._parse',
                'xdoctest.doctest_example:DocTest._pre_run',
@@ -22,7 +22,9 @@ PROPERTY = {'id': 'C11',
                    'recorded failure" hold whatever the object held before the call (inv-init obligations): nothing survives from an earlier run',
                    'the dict handed to exec is self.global_namespace, not the module dict; it is cleared on every normally returning path that '
                    'executed something (post namespace-cleared)',
-                   'a fresh RuntimeState is constructed per run (constructor call inside run)',
+                   'a fresh RuntimeState is constructed per run (constructor call inside run); RuntimeState.__init__ shares no mutable object '
+                  'with DEFAULT_RUNTIME_STATE or with config["default_runtime_state"] (post own-set / own-dict / defaults-untouched), and update() '
+                  'only writes the two dicts of its own object (frame), so directive state cannot leak into the next run',
                   'a doctest that replaces sys.stdout cannot affect the next one: CaptureStdout.stop/__exit__ put back the stream that was current '
                   'when the capture object was built, unconditionally, and run ends with sys.stdout identical to its entry value'],
              'T': ['compile / exec / eval / asyncio.run as oracles (pyvc/models_run.py): return a value or raise any class, write to the current '
@@ -33,7 +35,7 @@ PROPERTY = {'id': 'C11',
                    'DoctestPart.directives / has_any_code, DocTest._parse/_pre_run/_import_module/_test_globals/repr_failure: assumed contracts (see '
                    'evidence.assumed_contracts)',
                    'no --global-exec code is configured (DoctestConfig.global_exec is None)',
-                   'RuntimeState.__init__ deep-copies the defaults (C04/C11.fresh: not yet discharged)',
+                   
                    '_test_globals copies module entries INTO the namespace'],
              'N/A': ['the history lemma itself (for all sequences of runs) is a paper argument over these per-call frames']},
  'explanation': 'C11 reduced to per-call facts of DocTest.run: everything the loop reads is re-initialised before the loop.'}
